@@ -255,7 +255,7 @@ def gen_t_reduce_t(tier):
         for p1 in perms:
             for axes in ([1], [2], [0], [1, 2], [0, 1]):
                 for keep in (1, 0):
-                    for outs in ("final", "final+t1"):
+                    for outs in ("final", "final+t1", "final+red", "final+red2"):
                         name = f"t_reduce_t/{op}/p{''.join(map(str, p1))}/ax{''.join(map(str, axes))}/k{keep}/{outs}"
 
                         def build(op=op, p1=p1, axes=axes, keep=keep, outs=outs):
@@ -271,6 +271,10 @@ def gen_t_reduce_t(tier):
                             g.out(fin)
                             if "t1" in outs:
                                 g.out(t1)
+                            if "red2" in outs:
+                                g.out(g.node("Neg", [r]))  # the reduced value has a second consumer
+                            elif "red" in outs:
+                                g.out(r)  # the reduced value itself is observed
                             return g.build()
 
                         yield name, build
@@ -359,6 +363,27 @@ def gen_misc(tier):
             return g.build()
 
         yield f"cse/{op}", build
+    # twin producers that are BOTH model outputs, one of them also behind a same-type (removable) Cast
+    # that is a model output as well: cast removal + CSE must not list / define a value twice
+    for twin in ("Transpose", "Relu", "Neg"):
+        for cast_on in ("second", "first", "both", "roundtrip"):
+            def build(twin=twin, cast_on=cast_on):
+                g = GB()
+                x = g.inp("x", F, DIMS3)
+                kw = {"perm": [0, 2, 1]} if twin == "Transpose" else {}
+                a = g.node(twin, [x], **kw)
+                b = g.node(twin, [x], **kw)
+                g.out(a)
+                g.out(b)
+                if cast_on in ("second", "both"):
+                    g.out(g.node("Cast", [b], to=TP.FLOAT))
+                if cast_on in ("first", "both"):
+                    g.out(g.node("Cast", [a], to=TP.FLOAT))
+                if cast_on == "roundtrip":
+                    g.out(g.node("Cast", [g.node("Cast", [b], to=TP.DOUBLE)], to=TP.FLOAT))
+                return g.build()
+
+            yield f"twin_outputs/{twin}/{cast_on}", build
     # Mul * Sigmoid -> Swish
     for opset in (23, 24):
         for order in ("x_sig", "sig_x", "other", "shared_sig", "sig_out"):
